@@ -998,7 +998,7 @@ def exec_app(case) -> Soft:
 
 SUBS = [
     Sub("init", exec_init, strategy=init_cases(), quick=1200, thorough=16 * 6000, shards_quick=12, weight=1.0),
-    Sub("init-codon", exec_codon, strategy=codon_cases(), quick=16, thorough=16 * 100, shards_quick=8, weight=60.0),
+    Sub("init-codon", exec_codon, strategy=codon_cases(), quick=24, thorough=16 * 100, shards_quick=8, weight=60.0),
     Sub("optimise", exec_opt, strategy=opt_cases(), quick=640, thorough=16 * 3000, shards_quick=8, weight=2.0),
     Sub("app", exec_app, strategy=app_cases(), quick=200, thorough=16 * 800, shards_quick=8, weight=4.0),
 ]
@@ -1008,6 +1008,6 @@ KNOWN_PREDICATES = {}
 META = {
     "technique": "Hypothesis-generated nested model pairs and optimiser runs; metamorphic relation null.lnL == alt.lnL after initialise_from_nested and lnL_after >= lnL_before, backed by an independent reference likelihood (rate-matrix cell tables, scipy expm, Felsenstein pruning) written in the check; hypothesis / model_collection apps end to end",
     "level_text": "Each run builds about 1 200 nested nucleotide pairs (23 named structural pairs, user predicate refinements and extra predicates, per-edge / subset scoping on either side, lengths constrained equal) with random null parameters and compares the initialised alt's likelihood with the null's and with an independent pruning implementation; runs about 640 local / global optimisations from random starts inside case-declared bounds under evaluation limits 1-3000 checking monotonicity, bounds and that the reported parameters reproduce the reported likelihood; and fits about 200 null->alt(->alt2) chains through the apps checking LR >= 0.",
-    "level_note": "Trusts the reference likelihood (about 70 lines) and the cell tables of eight nucleotide models. Codon pairs are only compared null-vs-alt (no reference) and only 16 per quick run. One bin and one locus only. Monotonicity is checked, not convergence; the annealer runs with at most 400 evaluations.",
+    "level_note": "Trusts the reference likelihood (about 70 lines) and the cell tables of eight nucleotide models. Codon pairs are only compared null-vs-alt (no reference) and only 24 per quick run. One bin and one locus only. Monotonicity is checked, not convergence; the annealer runs with at most 400 evaluations.",
     "design_ref": "DESIGN.md section 1, C16",
 }
